@@ -859,11 +859,10 @@ class Card:
         description = description or ""
         for section_name, plot_path in kwargs.items():
             title = split_subsection_names(section_name)[-1]
-            alt_text = alt_text or title
             section = PlotSection(
                 title=title,
                 content=description,
-                alt_text=alt_text,
+                alt_text=alt_text or title,
                 path=plot_path,
                 folded=folded,
             )
